@@ -192,3 +192,42 @@ def twin_never_title(depth: int) -> bool:
     role, kw = TITLES[0]
     got, tok = _match(role, "#" * depth + " " + kw + ": x\n")
     return not got
+
+
+def title_cheap(i: int, six: bool) -> bool:
+    """
+    pre: 0 <= i < len(TITLES)
+    post: _
+    """
+    # every title keyword of the dialect at header depth 2 / 6 with a plain title (all dialects are affordable this way)
+    role, kw = pick(i, TITLES)
+    depth = 6 if six else 2
+    line = "#" * depth + " " + kw + ": t\n"
+    got, tok = _match(role, line)
+    if not got:
+        return False
+    want = None
+    for k in _keywords_of(role):
+        if (kw + ":").startswith(k + ":"):
+            want = k
+            break
+    return tok.matched_keyword == want and tok.location == {"line": 1, "column": depth + 2} and tok.matched_text == "t"
+
+
+def step_cheap(i: int, b: int) -> bool:
+    """
+    pre: 0 <= i < len(STEP_KWS) and 0 <= b < 3
+    post: _
+    """
+    kw = pick(i, STEP_KWS)
+    line = pick(b, ["*", "+", "-"]) + " " + kw + "t\n"
+    got, tok = _match("StepLine", line)
+    if not got:
+        return False
+    want = None
+    for k in STEP_KWS:
+        if (kw + "t").startswith(k):
+            want = k
+            break
+    # the bullet '*' followed by a blank may itself be read as the keyword '* ' only when nothing better follows - not the case here
+    return tok.matched_keyword == want and tok.location == {"line": 1, "column": 3}
